@@ -36,18 +36,15 @@ and the sink's flush; images are counted; no reachable `unreachable!()`/index pa
   (and reproduced on the crate by the harness): the error is reported by the call that hits it and by
   `finish`, nothing panics, one IEND attempt.
 
-These stay `_partial` because they are proved for the sink that never fails only.  No panic of the stream
-path is known any more (N12 — a stale row index after a failed row write — is repaired by c724280;
-`C19_stream_sink_failures` has the run).  For EVERY sink the clauses (no panic, one IEND, error reported by the
-failing call) are tied by the harness (write-fault sweep over every byte offset, once/permanent, flush faults)
-but not proved.  What blocks the proof: (1) the invariant has to follow flate2's retry loop through every
-partial state — output pending in `zio::Writer`, a chunk buffer left full by a failed `flush_inner` (after
-which `ChunkWriter::write` answers `Ok(0)` = `WriteZero` until an explicit `flush` retries), a row recorded as
-complete whose compression failed (`index = line_len`, `to_write = 0`), `Wrapper::Unrecoverable` — and show for
-each that the slices `curr_buf[..line_len][index..]`, `to_write -= written`, `assert_eq!(index, 0)` and the
-`unreachable!()` arms stay safe; (2) the `u32` counter `animation_written` needs a bound on the number of
-frame headers written (as `ops.length < 2^32` for the whole-image API), which for the stream writer depends
-on the bytes supplied, not on the number of calls.
+These two stay `_partial` (clean sink, complete sessions); they additionally give the valid skeleton.  The every-sink
+clauses for the stream writer — no panic, one IEND attempt which is the last log entry, the failing call reports the
+error, `Ok` from `finish` means the log ends with a complete IEND — are proved in `Props/C19Stream.lean`
+(`C19_stream_no_panic`, `C19_stream_one_iend`, `C19_stream_failure_reported`, per call `C19_stream_call_reports`) for EVERY
+`SinkBehaviour`, with no compressor contract and without asking that sessions are complete.  The invariant `SWInv`
+(`Proofs/StreamSink*.lean`) follows flate2's retry loop through every partial state — output pending in `zio::Writer`, a chunk
+buffer left full by a failed `flush_inner`, a row recorded as complete whose compression failed (`index = line_len`,
+`to_write = 0`), `Wrapper::Unrecoverable` — and the `u32` counter `animation_written` is bounded through `progCost`
+(1 per whole-image op, 1 per session, 1 per byte written through a stream writer; `C19_stream_room_needed`: necessary).
 Still FALSE (N10, open): `C19_stream_finish_abandoned_counterexample` — with an abandoned stream-writer
 session every call incl. `finish` returns `Ok` under `validate_sequence` and the file is invalid.  By design
 of `Drop` (remainder of N11): a session dropped in the MIDDLE of an image cannot report a sink error
